@@ -12,6 +12,7 @@ package main
 
 import (
 	"fmt"
+	"os"
 	"strings"
 )
 
@@ -65,14 +66,13 @@ func (r *rwRT) ruleScopeAgree(seqForHolds bool, mode string) {
 		return
 	}
 	absorbing := map[string]bool{"For": true, "While": true, "Loop": true}
-	runShape := func(kind string, pick func(desc string) bool) []struct {
-		o  Outcome
-		in *astInput
-	} {
-		var res []struct {
-			o  Outcome
-			in *astInput
-		}
+	type shapeRun struct {
+		o    Outcome
+		in   *astInput
+		intp *Interp
+	}
+	runShape := func(kind string, pick func(desc string) bool) []shapeRun {
+		var res []shapeRun
 		for _, shp := range r.shapes(kind) {
 			if !pick(shp.desc) {
 				continue
@@ -87,10 +87,7 @@ func (r *rwRT) ruleScopeAgree(seqForHolds bool, mode string) {
 			r.account(in)
 			for _, o := range outs {
 				if !o.Panicked && !o.St.Truncated {
-					res = append(res, struct {
-						o  Outcome
-						in *astInput
-					}{o, shp})
+					res = append(res, shapeRun{o, shp, in})
 				}
 			}
 		}
@@ -142,6 +139,14 @@ func (r *rwRT) ruleScopeAgree(seqForHolds bool, mode string) {
 			}
 			if strings.HasPrefix(root, "seq.") {
 				rootedOK++
+			} else if err := r.switchBreaksRewritten(p.intp, p.o, p.in); root != "" && kind != "ForStmt" && err == errInfeasiblePath {
+				yielding-- // the oracle said "the whole body is yield-free" and "a clause yields" on one path
+			} else if root != "" && kind != "ForStmt" && err == nil {
+				// the other sound lowering: before the clause bodies are lowered, every break that refers to the
+				// switch itself is turned into `return Normal()` (leaving the switch = completing it normally;
+				// the switch is the last statement of its thunk, the combine decision follows it)
+				rootedOK++
+			} else if os.Getenv("VERIF_DEBUG_SCOPE") != "" && root != "" && kind != "ForStmt" && func() bool { fmt.Fprintln(os.Stderr, "SCOPE", kind, err); return false }() {
 			} else if root == "" {
 				// body yields nothing on this path that needs a target (e.g. only the init yields): native loop kept
 				yielding--
@@ -154,7 +159,7 @@ func (r *rwRT) ruleScopeAgree(seqForHolds bool, mode string) {
 			continue
 		}
 		c.check(rootedOK == yielding, "RW.SCOPEAGREE", "break inside a yielding "+strings.TrimSuffix(kind, "Stmt")+" is absorbed by its lowering", pos,
-			fmt.Sprintf("%d yielding lowering paths are all rooted at a Break-absorbing loop combinator", yielding),
+			fmt.Sprintf("%d yielding lowering paths are all rooted at a Break-absorbing loop combinator, or turn the breaks of the statement into `return Normal()` before its bodies are lowered", yielding),
 			fmt.Sprintf("%d of %d yielding lowering paths are rooted at %q, which does not absorb the Break signal: a `break` placed after a yield inside it (rewritten to seq.Break() by the branch pass, because it sits in a Bind thunk) leaves the enclosing loop instead of the %s", yielding-rootedOK, yielding, example, strings.TrimSuffix(kind, "Stmt")))
 	}
 	// (b) yielding for-post must run on Continue
@@ -467,4 +472,98 @@ func refReachable(st *State, v AV, id int) bool {
 	}
 	walk(v, map[int]bool{})
 	return found
+}
+
+var errInfeasiblePath = fmt.Errorf("infeasible combination of oracle answers")
+
+// switchBreaksRewritten: on this path the body of the switch was traversed, before any clause body was lowered,
+// by a callback that (driven here on one node of each relevant kind) replaces an unlabelled break by
+// `return seq.Normal()`, leaves continue / labelled branches alone, does not descend into nested loops,
+// switches, selects and function literals (their breaks are theirs), and descends into everything else.
+func (r *rwRT) switchBreaksRewritten(in *Interp, o Outcome, shp *astInput) error {
+	rootObj := o.St.Obj(unwrap(shp.root))
+	if rootObj == nil {
+		return fmt.Errorf("no switch node")
+	}
+	body := rootObj.Fields["Body"]
+	for _, l := range o.St.Labels {
+		if l == "mustNoYield("+argLabel(body)+")=true" {
+			return errInfeasiblePath
+		}
+	}
+	firstLower := len(o.St.Events)
+	for i, e := range o.St.Events {
+		if e.Kind == "call" && e.Fn != nil && inRw(e.Fn) && e.Fn.Name() == "rewriteBlockStmt" {
+			firstLower = i
+			break
+		}
+	}
+	var cb AV
+	for _, e := range o.St.Events[:firstLower] {
+		if e.Kind == "call" && e.Fn != nil && e.Fn.Name() == "Apply" && strings.Contains(fnPkgPath(e.Fn), "astutil") && len(e.Args) == 3 && sameAV(unwrap(e.Args[0]), unwrap(body)) {
+			if n, known := nilness(e.Args[2]); !known || !n {
+				return fmt.Errorf("the traversal of the switch body uses a post-order callback (pruning needs the pre-order one)")
+			}
+			cb = e.Args[1]
+		}
+	}
+	if cb == nil {
+		return fmt.Errorf("the body of the switch is not traversed before its clause bodies are lowered")
+	}
+	type tc struct {
+		kind    string
+		fields  map[string]AV
+		replace bool // expected: replaced by return Normal()
+		descend bool // expected result of the callback when nothing is replaced
+	}
+	tcs := []tc{
+		{"BranchStmt", map[string]AV{"Tok": r.tokConst("BREAK"), "Label": Nil{}}, true, true},
+		{"BranchStmt", map[string]AV{"Tok": r.tokConst("CONTINUE"), "Label": Nil{}}, false, true},
+		{"BranchStmt", map[string]AV{"Tok": r.tokConst("BREAK"), "Label": Sym{Name: "L", NN: true}}, false, true},
+		{"ForStmt", map[string]AV{}, false, false}, {"RangeStmt", map[string]AV{}, false, false},
+		{"SwitchStmt", map[string]AV{}, false, false}, {"TypeSwitchStmt", map[string]AV{}, false, false},
+		{"SelectStmt", map[string]AV{}, false, false}, {"FuncLit", map[string]AV{}, false, false},
+		{"IfStmt", map[string]AV{}, false, true}, {"BlockStmt", map[string]AV{}, false, true},
+		{"CaseClause", map[string]AV{}, false, true}, {"LabeledStmt", map[string]AV{}, false, true},
+	}
+	prev := in.OnCall
+	defer func() { in.OnCall = prev }()
+	for _, t := range tcs {
+		st := o.St.clone()
+		_, node := r.heapNode(st, t.kind, t.fields)
+		in.OnCall = wrapOnCall(prev, func(cc *CallCtx) []Answer {
+			if cc.Fn != nil && cc.Fn.Name() == "Node" && cc.Fn.Signature.Recv() != nil && strings.Contains(cc.Fn.Signature.Recv().Type().String(), "astutil.Cursor") {
+				return []Answer{{Ret: []AV{node}, NoEvent: true}}
+			}
+			return nil
+		})
+		mark := len(st.Events)
+		outs := in.Apply(st, cb, []AV{Sym{Name: "cursor", NN: true}})
+		if len(outs) == 0 {
+			return fmt.Errorf("the callback has no path for ast.%s", t.kind)
+		}
+		for _, co := range outs {
+			if co.Panicked || len(co.Ret) != 1 {
+				return fmt.Errorf("the callback panics on ast.%s", t.kind)
+			}
+			edits := cursorEdits(co.St, mark)
+			if t.replace {
+				want := nd("ReturnStmt", map[string]Pat{"Results": lst(seqCallPat("Normal"))})
+				if len(edits) != 1 || edits[0].Fn.Name() != "Replace" || matchTmpl(co.St, edits[0].Args[1], want) != nil {
+					return fmt.Errorf("an unlabelled break of the switch is not replaced by `return seq.Normal()`")
+				}
+				continue
+			}
+			if len(edits) != 0 {
+				return fmt.Errorf("the callback edits ast.%s (%s)", t.kind, canon(t.fields["Tok"]))
+			}
+			if b, known := asBool(co.Ret[0]); !known || b != t.descend {
+				if t.descend {
+					return fmt.Errorf("the traversal does not descend into ast.%s: a break of the switch nested in it is missed", t.kind)
+				}
+				return fmt.Errorf("the traversal descends into ast.%s: the break of a nested loop / switch / closure would be turned into a completion of the outer switch", t.kind)
+			}
+		}
+	}
+	return nil
 }
